@@ -182,6 +182,10 @@ func (d *DataSource) Load(ctx context.Context, headers http.Header, input []byte
 					}
 
 					results[index].entityIndexMap = newEntityIndexMap(serviceCall.RPC.RequestedEntityType, representations)
+				} else if entityType := d.plan.entityTypeOf(serviceCall.RPC); entityType != "" {
+					// A follow-up call of an entity lookup (@requires field, field resolver) only has results
+					// for the entities of that type: mergeWithPath must merge them into those entities only.
+					results[index].entityIndexMap = newEntityIndexMap(entityType, representations)
 				}
 
 				return nil
@@ -195,7 +199,7 @@ func (d *DataSource) Load(ctx context.Context, headers http.Header, input []byte
 		for _, result := range results {
 			switch result.kind {
 			case CallKindResolve, CallKindRequired:
-				err = builder.mergeWithPath(root, result.response, result.responsePath)
+				err = builder.mergeWithPath(root, result.response, result.responsePath, result.entityIndexMap)
 			default:
 				root, err = builder.mergeValues(root, result)
 			}
